@@ -293,6 +293,12 @@ impl BaseBindingsGenerator for ZodBindingsGenerator {
             }
         }
 
+        // A type that is replaced through `type_mappings` is never referenced by name,
+        // so it must not be declared either
+        if let Some(mappings) = &config.type_mappings {
+            used_structs.retain(|name, _| !mappings.contains_key(name));
+        }
+
         // Create file writer
         let mut file_writer = FileWriter::new(output_path)?;
 
